@@ -95,11 +95,16 @@ class Channel(AsyncIterable, Generic[ST]):
         self._consumer_buffers[sentinel] = buffer = deque()  # type: Deque[ST]
         try:
             while True:
-                while buffer:
-                    yield buffer.popleft()
-                if self._closed:
+                if buffer:
+                    # messages are already available: let others run before each one
+                    await postpone()
+                elif self._closed:
                     break
-                await self._notification
+                else:
+                    await self._notification
+                    if not buffer:
+                        continue
+                yield buffer.popleft()
         finally:
             del self._consumer_buffers[sentinel]
 
